@@ -1,8 +1,9 @@
 /-
   C01 — GEMINI scores equal their defining statistical distances.
-  Property theorems only; helper lemmas live in `GemVerif/Lemmas/Gemini.lean`.
+  Property theorems only; helper lemmas live in `GemVerif/Lemmas/Gemini.lean`
+  and `GemVerif/Lemmas/GeminiC01.lean`.
 -/
-import GemVerif.Lemmas.Gemini
+import GemVerif.Lemmas.GeminiC01
 import GemVerif.Gen.Registry
 
 namespace GemVerif.Props.C01
@@ -35,6 +36,362 @@ theorem kl_ova_eq_spec (hn : 0 < n) {ε : ℝ} (hε : 0 < ε) (P : Fin n → Fin
         rw [Finset.mul_sum, Finset.sum_div, Finset.sum_div, Finset.sum_mul, ← Finset.sum_sub_distrib]
         refine Finset.sum_congr rfl fun i _ => ?_
         field_simp
+
+/-- The hypotheses used below (`0 < ε`, `Interior ε P`, unit row sums) are jointly satisfiable for
+    every `n` and every `K ≥ 2` (for `K = 1` a row-stochastic `P` is identically 1 and is always
+    clipped). -/
+example (hK : 2 ≤ K) :
+    ∃ (ε : ℝ) (P : Fin n → Fin K → ℝ), 0 < ε ∧ Interior ε P ∧ ∀ i, ∑ k, P i k = 1 := by
+  have hKR : (2 : ℝ) ≤ K := by exact_mod_cast hK
+  have hK0 : (0 : ℝ) < K := by linarith
+  refine ⟨1 / (2 * K), fun _ _ => 1 / K, by positivity, fun _ _ => ⟨?_, ?_⟩, fun _ => ?_⟩
+  · rw [div_lt_div_iff₀ (by positivity) hK0]; linarith
+  · rw [div_lt_iff₀ hK0, sub_mul, div_mul_eq_mul_div, one_mul, mul_comm (2 : ℝ), ← div_div,
+      div_self hK0.ne']
+    linarith
+  · simp only [Finset.sum_const, Finset.card_univ, Fintype.card_fin, nsmul_eq_mul]
+    field_simp
+
+/-- KL one-vs-one: the code's `prediction_entropy - Σ_k π_k · mean_i log p_ik` is
+    `Σ_a Σ_b π_a π_b · KL(p(x|a) ‖ p(x|b))`.  Unit row sums are necessary here: for `P = t • Q` with
+    `Q` row-stochastic the spec value is `t` times the code value. -/
+theorem kl_ovo_eq_spec (hn : 0 < n) {ε : ℝ} (hε : 0 < ε) (P : Fin n → Fin K → ℝ) (hI : Interior ε P)
+    (hrow : ∀ i, ∑ k, P i k = 1) :
+    klScore ε true P = Spec.ovo Spec.KL P := by
+  have hnR : (0 : ℝ) < n := by exact_mod_cast hn
+  simp only [klScore, clipP_of_interior hI, tab_apply, mean0_eq_pi, meanV_eq, sumFin_eq_sum,
+    RealLike.log_real, if_true, Spec.ovo, Spec.KL, Spec.cond]
+  have hterm : ∀ a b, Spec.pi P a * Spec.pi P b *
+      ∑ i, P i a / (↑n * Spec.pi P a) * Real.log (P i a / (↑n * Spec.pi P a) / (P i b / (↑n * Spec.pi P b)))
+      = Spec.pi P b * ((∑ i, P i a * Real.log (P i a)) / n)
+        - Spec.pi P b * ((∑ i, P i a * Real.log (P i b)) / n)
+        + (Spec.pi P a * (Spec.pi P b * Real.log (Spec.pi P b))
+            - Spec.pi P b * (Spec.pi P a * Real.log (Spec.pi P a))) := by
+    intro a b
+    have hπa := pi_pos hε hn hI a
+    have hπb := pi_pos hε hn hI b
+    have hlog : ∀ i, Real.log (P i a / (↑n * Spec.pi P a) / (P i b / (↑n * Spec.pi P b)))
+        = Real.log (P i a) - Real.log (P i b) + Real.log (Spec.pi P b) - Real.log (Spec.pi P a) := by
+      intro i
+      have hPa := P_pos hε hI i a
+      have hPb := P_pos hε hI i b
+      rw [show P i a / (↑n * Spec.pi P a) / (P i b / (↑n * Spec.pi P b))
+          = (P i a * Spec.pi P b) / (P i b * Spec.pi P a) by field_simp,
+        Real.log_div (mul_pos hPa hπb).ne' (mul_pos hPb hπa).ne',
+        Real.log_mul hPa.ne' hπb.ne', Real.log_mul hPb.ne' hπa.ne']
+      ring
+    simp_rw [hlog]
+    have hsplit : ∑ i, P i a / (↑n * Spec.pi P a) *
+        (Real.log (P i a) - Real.log (P i b) + Real.log (Spec.pi P b) - Real.log (Spec.pi P a))
+        = ((∑ i, P i a * Real.log (P i a)) - (∑ i, P i a * Real.log (P i b))
+            + (∑ i, P i a) * (Real.log (Spec.pi P b) - Real.log (Spec.pi P a))) / (↑n * Spec.pi P a) := by
+      rw [Finset.sum_mul, ← Finset.sum_sub_distrib, ← Finset.sum_add_distrib, Finset.sum_div]
+      refine Finset.sum_congr rfl fun i _ => ?_
+      ring
+    rw [hsplit, sum_P_eq hn]
+    field_simp
+  simp_rw [hterm]
+  simp only [Finset.sum_add_distrib, Finset.sum_sub_distrib]
+  have h1 : ∑ a, ∑ b, Spec.pi P b * ((∑ i, P i a * Real.log (P i a)) / n)
+      = ∑ k, (∑ i, P i k * Real.log (P i k)) / n := by
+    simp_rw [← Finset.sum_mul, sum_pi_eq_one hn hrow, one_mul]
+  have h2 : ∑ a, ∑ b, Spec.pi P b * ((∑ i, P i a * Real.log (P i b)) / n)
+      = ∑ k, Spec.pi P k * ((∑ i, Real.log (P i k)) / n) := by
+    rw [Finset.sum_comm]
+    refine Finset.sum_congr rfl fun b _ => ?_
+    rw [← Finset.mul_sum, ← Finset.sum_div, Finset.sum_comm]
+    simp_rw [← Finset.sum_mul, hrow, one_mul]
+  have h3 : ∑ a, ∑ b, Spec.pi P b * (Spec.pi P a * Real.log (Spec.pi P a))
+      = ∑ a, ∑ b, Spec.pi P a * (Spec.pi P b * Real.log (Spec.pi P b)) := Finset.sum_comm
+  rw [h1, h2, h3]
+  ring
+
+/-- TV one-vs-all: `Σ_k π_k · TV(p(x|k), p(x))` (no row-sum hypothesis needed). -/
+theorem tv_ova_eq_spec (hn : 0 < n) {ε : ℝ} (hε : 0 < ε) (P : Fin n → Fin K → ℝ) (hI : Interior ε P) :
+    tvScore ε false P = Spec.ova Spec.TV P := by
+  have hnR : (0 : ℝ) < n := by exact_mod_cast hn
+  simp only [tvScore, clipP_of_interior hI, tab_apply, mean0_eq_pi, meanV_eq, sumFin_eq_sum,
+    RealLike.abs_real, RealLike.half_real, Bool.false_eq_true, if_false, Spec.ova, Spec.TV,
+    Spec.cond, Spec.unif]
+  rw [Finset.mul_sum]
+  refine Finset.sum_congr rfl fun k _ => ?_
+  have hπ := pi_pos hε hn hI k
+  have habs : ∀ i, |P i k / (↑n * Spec.pi P k) - 1 / ↑n| = |P i k - Spec.pi P k| / (↑n * Spec.pi P k) := by
+    intro i
+    rw [show P i k / (↑n * Spec.pi P k) - 1 / ↑n = (P i k - Spec.pi P k) / (↑n * Spec.pi P k) by field_simp,
+      abs_div, abs_of_pos (mul_pos hnR hπ)]
+  simp_rw [habs]
+  rw [← Finset.sum_div]
+  field_simp
+
+/-- TV one-vs-one: `Σ_a Σ_b π_a π_b · TV(p(x|a), p(x|b))` (no row-sum hypothesis needed). -/
+theorem tv_ovo_eq_spec (hn : 0 < n) {ε : ℝ} (hε : 0 < ε) (P : Fin n → Fin K → ℝ) (hI : Interior ε P) :
+    tvScore ε true P = Spec.ovo Spec.TV P := by
+  have hnR : (0 : ℝ) < n := by exact_mod_cast hn
+  simp only [tvScore, clipP_of_interior hI, tab_apply, mean0_eq_pi, meanV_eq, sumFin_eq_sum,
+    RealLike.abs_real, RealLike.half_real, if_true, Spec.ovo, Spec.TV, Spec.cond]
+  rw [Finset.mul_sum]
+  refine Finset.sum_congr rfl fun a _ => ?_
+  rw [Finset.mul_sum]
+  refine Finset.sum_congr rfl fun b _ => ?_
+  have hπa := pi_pos hε hn hI a
+  have hπb := pi_pos hε hn hI b
+  have habs : ∀ i, |P i a / (↑n * Spec.pi P a) - P i b / (↑n * Spec.pi P b)|
+      = |Spec.pi P a * P i b - Spec.pi P b * P i a| / (↑n * Spec.pi P a * Spec.pi P b) := by
+    intro i
+    rw [show P i a / (↑n * Spec.pi P a) - P i b / (↑n * Spec.pi P b)
+        = (Spec.pi P b * P i a - Spec.pi P a * P i b) / (↑n * Spec.pi P a * Spec.pi P b) by field_simp,
+      abs_div, abs_of_pos (mul_pos (mul_pos hnR hπa) hπb), abs_sub_comm]
+  simp_rw [habs]
+  rw [← Finset.sum_div]
+  field_simp
+
+/-- Squared Hellinger one-vs-all without the row-sum hypothesis: the code value exceeds
+    `Σ_k π_k · H²(p(x|k), p(x))` by `1 - Σ_k π_k` (so unit mean row sum is exactly what is needed). -/
+theorem hellinger_ova_eq_spec_gen (hn : 0 < n) {ε : ℝ} (hε : 0 < ε) (P : Fin n → Fin K → ℝ)
+    (hI : Interior ε P) :
+    hellingerScore ε false P = Spec.ova Spec.H2 P + (1 - ∑ k, Spec.pi P k) := by
+  have hnR : (0 : ℝ) < n := by exact_mod_cast hn
+  simp only [hellingerScore, clipP_of_interior hI, tab_apply, mean0_eq_pi, meanV_eq, sumFin_eq_sum,
+    RealLike.sqrt_real, Bool.false_eq_true, if_false, Spec.ova, Spec.H2, Spec.cond, Spec.unif]
+  have hterm : ∀ k, Spec.pi P k * (1 - ∑ i, Real.sqrt (P i k / (↑n * Spec.pi P k) * (1 / ↑n)))
+      = Spec.pi P k - (∑ i, Real.sqrt (P i k * Spec.pi P k)) / n := by
+    intro k
+    have hπ := pi_pos hε hn hI k
+    have hsq : ∀ i, Real.sqrt (P i k / (↑n * Spec.pi P k) * (1 / ↑n))
+        = Real.sqrt (P i k * Spec.pi P k) / (↑n * Spec.pi P k) := by
+      intro i
+      rw [show P i k / (↑n * Spec.pi P k) * (1 / ↑n) = (P i k * Spec.pi P k) / (↑n * Spec.pi P k) ^ 2 by
+        field_simp, Real.sqrt_div' _ (sq_nonneg _), Real.sqrt_sq (mul_pos hnR hπ).le]
+    simp_rw [hsq]
+    rw [← Finset.sum_div]
+    field_simp
+  simp_rw [hterm]
+  rw [Finset.sum_sub_distrib, Finset.sum_comm, Finset.sum_div]
+  ring
+
+/-- Squared Hellinger one-vs-all: `Σ_k π_k · H²(p(x|k), p(x))`.  Unit row sums are necessary
+    (the code's leading `1` stands for `Σ_k π_k`, see `hellinger_ova_eq_spec_gen`). -/
+theorem hellinger_ova_eq_spec (hn : 0 < n) {ε : ℝ} (hε : 0 < ε) (P : Fin n → Fin K → ℝ)
+    (hI : Interior ε P) (hrow : ∀ i, ∑ k, P i k = 1) :
+    hellingerScore ε false P = Spec.ova Spec.H2 P := by
+  rw [hellinger_ova_eq_spec_gen hn hε P hI, sum_pi_eq_one hn hrow]; ring
+
+/-- Squared Hellinger one-vs-one without the row-sum hypothesis: the code value exceeds
+    `Σ_a Σ_b π_a π_b · H²(p(x|a), p(x|b))` by `1 - (Σ_k π_k)²`. -/
+theorem hellinger_ovo_eq_spec_gen (hn : 0 < n) {ε : ℝ} (hε : 0 < ε) (P : Fin n → Fin K → ℝ)
+    (hI : Interior ε P) :
+    hellingerScore ε true P = Spec.ovo Spec.H2 P + (1 - (∑ k, Spec.pi P k) ^ 2) := by
+  have hnR : (0 : ℝ) < n := by exact_mod_cast hn
+  simp only [hellingerScore, clipP_of_interior hI, tab_apply, mean0_eq_pi, meanV_eq, sumFin_eq_sum,
+    RealLike.sqrt_real, RealLike.sq_real, if_true, Spec.ovo, Spec.H2, Spec.cond]
+  have hterm : ∀ a b, Spec.pi P a * Spec.pi P b *
+      (1 - ∑ i, Real.sqrt (P i a / (↑n * Spec.pi P a) * (P i b / (↑n * Spec.pi P b))))
+      = Spec.pi P a * Spec.pi P b
+        - (∑ i, Real.sqrt (P i a * Spec.pi P a) * Real.sqrt (P i b * Spec.pi P b)) / n := by
+    intro a b
+    have hπa := pi_pos hε hn hI a
+    have hπb := pi_pos hε hn hI b
+    have hsq : ∀ i, Real.sqrt (P i a / (↑n * Spec.pi P a) * (P i b / (↑n * Spec.pi P b)))
+        = Real.sqrt (P i a * Spec.pi P a) * Real.sqrt (P i b * Spec.pi P b)
+          / (↑n * Spec.pi P a * Spec.pi P b) := by
+      intro i
+      have hPa := P_pos hε hI i a
+      rw [show P i a / (↑n * Spec.pi P a) * (P i b / (↑n * Spec.pi P b))
+          = ((P i a * Spec.pi P a) * (P i b * Spec.pi P b)) / (↑n * Spec.pi P a * Spec.pi P b) ^ 2 by
+        field_simp, Real.sqrt_div' _ (sq_nonneg _),
+        Real.sqrt_sq (mul_pos (mul_pos hnR hπa) hπb).le, Real.sqrt_mul (mul_pos hPa hπa).le]
+    simp_rw [hsq]
+    rw [← Finset.sum_div]
+    field_simp
+  simp_rw [hterm]
+  simp only [Finset.sum_sub_distrib]
+  have hsum : ∑ a, ∑ b, (∑ i, Real.sqrt (P i a * Spec.pi P a) * Real.sqrt (P i b * Spec.pi P b)) / n
+      = (∑ i, (∑ k, Real.sqrt (P i k * Spec.pi P k)) ^ 2) / n := by
+    simp_rw [← Finset.sum_div]
+    congr 1
+    simp_rw [pow_two, Finset.sum_mul_sum]
+    exact (Finset.sum_congr rfl fun a _ => Finset.sum_comm).trans Finset.sum_comm
+  rw [hsum, sum_sum_pi]
+  ring
+
+/-- Squared Hellinger one-vs-one: `Σ_a Σ_b π_a π_b · H²(p(x|a), p(x|b))`.  Unit row sums are
+    necessary (the code's leading `1` stands for `(Σ_k π_k)²`, see `hellinger_ovo_eq_spec_gen`). -/
+theorem hellinger_ovo_eq_spec (hn : 0 < n) {ε : ℝ} (hε : 0 < ε) (P : Fin n → Fin K → ℝ)
+    (hI : Interior ε P) (hrow : ∀ i, ∑ k, P i k = 1) :
+    hellingerScore ε true P = Spec.ovo Spec.H2 P := by
+  rw [hellinger_ovo_eq_spec_gen hn hε P hI, sum_pi_eq_one hn hrow]; ring
+
+/-- Pearson chi-square one-vs-all without the row-sum hypothesis: the code value is
+    `(Σ_k π_k · χ²(p(x|k) ‖ p(x)) + Σ_k π_k) / 2`. -/
+theorem chi2_ova_eq_spec_gen (hn : 0 < n) {ε : ℝ} (hε : 0 < ε) (P : Fin n → Fin K → ℝ)
+    (hI : Interior ε P) :
+    chi2Score ε false P = (Spec.ova Spec.chi2 P + ∑ k, Spec.pi P k) / 2 := by
+  have hnR : (0 : ℝ) < n := by exact_mod_cast hn
+  simp only [chi2Score, clipP_of_interior hI, tab_apply, mean0_eq_pi, meanV_eq, sumFin_eq_sum,
+    RealLike.half_real, Bool.false_eq_true, if_false, Spec.ova, Spec.chi2, Spec.cond, Spec.unif]
+  have hterm : ∀ k, Spec.pi P k * ∑ i, (P i k / (↑n * Spec.pi P k) - 1 / ↑n) ^ 2 / (1 / ↑n)
+      = (∑ i, P i k * (P i k / Spec.pi P k)) / n - Spec.pi P k := by
+    intro k
+    have hπ := pi_pos hε hn hI k
+    have hexp : ∀ i, (P i k / (↑n * Spec.pi P k) - 1 / ↑n) ^ 2 / (1 / ↑n)
+        = (P i k * (P i k / Spec.pi P k)) / (↑n * Spec.pi P k) - 2 * P i k / (↑n * Spec.pi P k) + 1 / n := by
+      intro i
+      field_simp
+      ring
+    simp_rw [hexp]
+    rw [Finset.sum_add_distrib, Finset.sum_sub_distrib, ← Finset.sum_div, ← Finset.sum_div,
+      ← Finset.mul_sum, sum_P_eq hn]
+    simp only [Finset.sum_const, Finset.card_univ, Fintype.card_fin, nsmul_eq_mul]
+    field_simp
+    ring
+  simp_rw [hterm]
+  rw [Finset.sum_sub_distrib, Finset.sum_comm, Finset.sum_div]
+  ring
+
+/-- Pearson chi-square one-vs-all: the code value is `(Σ_k π_k · χ²(p(x|k) ‖ p(x)) + 1) / 2`.
+    Unit row sums are necessary (the `+ 1` stands for `Σ_k π_k`, see `chi2_ova_eq_spec_gen`). -/
+theorem chi2_ova_eq_spec (hn : 0 < n) {ε : ℝ} (hε : 0 < ε) (P : Fin n → Fin K → ℝ)
+    (hI : Interior ε P) (hrow : ∀ i, ∑ k, P i k = 1) :
+    chi2Score ε false P = (Spec.ova Spec.chi2 P + 1) / 2 := by
+  rw [chi2_ova_eq_spec_gen hn hε P hI, sum_pi_eq_one hn hrow]
+
+/-- Pearson chi-square one-vs-one without the row-sum hypothesis: the code value is
+    `(Σ_a Σ_b π_a π_b · χ²(p(x|a) ‖ p(x|b)) + (Σ_k π_k)²) / 2`. -/
+theorem chi2_ovo_eq_spec_gen (hn : 0 < n) {ε : ℝ} (hε : 0 < ε) (P : Fin n → Fin K → ℝ)
+    (hI : Interior ε P) :
+    chi2Score ε true P = (Spec.ovo Spec.chi2 P + (∑ k, Spec.pi P k) ^ 2) / 2 := by
+  have hnR : (0 : ℝ) < n := by exact_mod_cast hn
+  simp only [chi2Score, clipP_of_interior hI, tab_apply, mean0_eq_pi, meanV_eq, sumFin_eq_sum,
+    RealLike.half_real, if_true, Spec.ovo, Spec.chi2]
+  have hterm : ∀ a b, Spec.pi P a * Spec.pi P b *
+      ∑ i, (Spec.cond P a i - Spec.cond P b i) ^ 2 / Spec.cond P b i
+      = (∑ i, (P i a * (P i a / Spec.pi P a)) * (Spec.pi P b / (P i b / Spec.pi P b))) / n
+        - Spec.pi P a * Spec.pi P b := by
+    intro a b
+    have hπa := pi_pos hε hn hI a
+    have hπb := pi_pos hε hn hI b
+    have hexp : ∀ i, (Spec.cond P a i - Spec.cond P b i) ^ 2 / Spec.cond P b i
+        = (P i a * (P i a / Spec.pi P a)) * (Spec.pi P b / (P i b / Spec.pi P b))
+            / (↑n * Spec.pi P a * Spec.pi P b)
+          - 2 * Spec.cond P a i + Spec.cond P b i := by
+      intro i
+      have hPa := P_pos hε hI i a
+      have hPb := P_pos hε hI i b
+      have hcb := cond_pos hε hn hI b i
+      rw [show (Spec.cond P a i - Spec.cond P b i) ^ 2 / Spec.cond P b i
+          = Spec.cond P a i ^ 2 / Spec.cond P b i - 2 * Spec.cond P a i + Spec.cond P b i by
+        field_simp; ring]
+      congr 2
+      unfold Spec.cond
+      field_simp
+    simp_rw [hexp]
+    rw [Finset.sum_add_distrib, Finset.sum_sub_distrib, ← Finset.sum_div, ← Finset.mul_sum,
+      cond_sum hε hn hI a, cond_sum hε hn hI b]
+    field_simp
+    ring
+  simp_rw [hterm]
+  simp only [Finset.sum_sub_distrib]
+  have hsum : ∑ a, ∑ b, (∑ i, (P i a * (P i a / Spec.pi P a)) * (Spec.pi P b / (P i b / Spec.pi P b))) / n
+      = (∑ i, (∑ k, P i k * (P i k / Spec.pi P k)) * (∑ k, Spec.pi P k / (P i k / Spec.pi P k))) / n := by
+    simp_rw [← Finset.sum_div]
+    congr 1
+    simp_rw [Finset.sum_mul_sum]
+    exact (Finset.sum_congr rfl fun a _ => Finset.sum_comm).trans Finset.sum_comm
+  rw [hsum, sum_sum_pi]
+  ring
+
+/-- Pearson chi-square one-vs-one: the code value is
+    `(Σ_a Σ_b π_a π_b · χ²(p(x|a) ‖ p(x|b)) + 1) / 2`.  Unit row sums are necessary
+    (the `+ 1` stands for `(Σ_k π_k)²`, see `chi2_ovo_eq_spec_gen`). -/
+theorem chi2_ovo_eq_spec (hn : 0 < n) {ε : ℝ} (hε : 0 < ε) (P : Fin n → Fin K → ℝ)
+    (hI : Interior ε P) (hrow : ∀ i, ∑ k, P i k = 1) :
+    chi2Score ε true P = (Spec.ovo Spec.chi2 P + 1) / 2 := by
+  rw [chi2_ovo_eq_spec_gen hn hε P hI, sum_pi_eq_one hn hrow]; norm_num
+
+/-- MMD one-vs-all: `Σ_k π_k · MMD_κ(p(x|k), p(x))` for every symmetric affinity `κ` — no
+    positive-semidefiniteness hypothesis (`np.sqrt(np.maximum(x, 0))` and `Real.sqrt` agree on
+    negative arguments) and no row-sum hypothesis; `0 < n`, `0 < ε` are not needed either. -/
+theorem mmd_ova_eq_spec {ε : ℝ} (P : Fin n → Fin K → ℝ) (hI : Interior ε P)
+    (κ : Fin n → Fin n → ℝ) (hκ : ∀ i j, κ i j = κ j i) :
+    mmdScore ε false P κ = Spec.ova (Spec.MMD κ) P := by
+  simp only [mmdScore, clipP_of_interior hI, tab_apply, mean0_eq_pi, sumFin_eq_sum,
+    Bool.false_eq_true, if_false, Spec.ova, mmdDeltaOva_eq hI hκ]
+
+/-- MMD one-vs-one: `Σ_a Σ_b π_a π_b · MMD_κ(p(x|a), p(x|b))` for every symmetric affinity `κ`
+    (no positive-semidefiniteness and no row-sum hypothesis). -/
+theorem mmd_ovo_eq_spec {ε : ℝ} (P : Fin n → Fin K → ℝ) (hI : Interior ε P)
+    (κ : Fin n → Fin n → ℝ) (hκ : ∀ i j, κ i j = κ j i) :
+    mmdScore ε true P κ = Spec.ovo (Spec.MMD κ) P := by
+  simp only [mmdScore, clipP_of_interior hI, tab_apply, tab2_apply, mean0_eq_pi, sumFin_eq_sum,
+    if_true, Spec.ovo, mmdDeltaOvo_eq hI hκ]
+  rw [Finset.sum_comm]
+  refine Finset.sum_congr rfl fun a _ => ?_
+  simp_rw [Finset.sum_mul]
+  refine Finset.sum_congr rfl fun b _ => ?_
+  ring
+
+/-- Wasserstein: the weight vector handed to `ot.emd2` for cluster `k` is exactly the empirical
+    conditional `p(x|k)`. -/
+theorem wassWeights_eq_cond {ε : ℝ} (P : Fin n → Fin K → ℝ) (hI : Interior ε P) (k : Fin K) :
+    wassWeights ε P k = Spec.cond P k :=
+  wassWeights_eq hI k
+
+/-- Wasserstein: every weight vector handed to `ot.emd2` is a probability vector
+    (non-negative — in fact positive — entries that sum to one). -/
+theorem wassWeights_prob (hn : 0 < n) {ε : ℝ} (hε : 0 < ε) (P : Fin n → Fin K → ℝ) (hI : Interior ε P)
+    (k : Fin K) :
+    (∀ i, 0 < wassWeights ε P k i) ∧ ∑ i, wassWeights ε P k i = 1 := by
+  rw [wassWeights_eq hI k]
+  exact ⟨cond_pos hε hn hI k, cond_sum hε hn hI k⟩
+
+/-- Wasserstein: the reference vector `np.ones(N) / N` handed to `ot.emd2` in the one-vs-all mode is a
+    probability vector too. -/
+theorem unif_prob (hn : 0 < n) : (∀ i, 0 < Spec.unif n i) ∧ ∑ i, Spec.unif n i = 1 := by
+  have hnR : (0 : ℝ) < n := by exact_mod_cast hn
+  refine ⟨fun _ => by unfold Spec.unif; positivity, ?_⟩
+  simp only [Spec.unif, Finset.sum_const, Finset.card_univ, Fintype.card_fin, nsmul_eq_mul]
+  field_simp
+
+/-- Wasserstein one-vs-all, modulo POT: for an arbitrary function `emd2` standing for
+    `ot.emd2(·, ·, affinity)`, the code value is `Σ_k π_k · emd2(p(x|k), p(x))`. -/
+theorem wass_ova_eq_spec {ε : ℝ} (emd2 : (Fin n → ℝ) → (Fin n → ℝ) → Model.Emd ℝ n)
+    (P : Fin n → Fin K → ℝ) (hI : Interior ε P) :
+    wassScore emd2 ε false P = ∑ k, Spec.pi P k * (emd2 (Spec.cond P k) (Spec.unif n)).value := by
+  simp only [wassScore, wassScoreT, clipP_of_interior hI, tab_apply, mean0_eq_pi, sumFin_eq_sum,
+    Bool.false_eq_true, if_false, wassWeights_eq hI, RealLike.nat_real]
+  rfl
+
+/-- Wasserstein one-vs-one, modulo POT: if `emd2` is symmetric in value and vanishes on equal
+    arguments — required only on the conditionals `p(x|k)` actually handed to it — the code's
+    mirrored upper-triangular table gives `Σ_a Σ_b π_a π_b · emd2(p(x|a), p(x|b))`. -/
+theorem wass_ovo_eq_spec_of_on_cond {ε : ℝ} (emd2 : (Fin n → ℝ) → (Fin n → ℝ) → Model.Emd ℝ n)
+    (P : Fin n → Fin K → ℝ) (hI : Interior ε P)
+    (hsymm : ∀ a b : Fin K, (emd2 (Spec.cond P a) (Spec.cond P b)).value
+      = (emd2 (Spec.cond P b) (Spec.cond P a)).value)
+    (hdiag : ∀ a : Fin K, (emd2 (Spec.cond P a) (Spec.cond P a)).value = 0) :
+    wassScore emd2 ε true P
+      = ∑ a, ∑ b, Spec.pi P a * Spec.pi P b * (emd2 (Spec.cond P a) (Spec.cond P b)).value := by
+  simp only [wassScore, wassScoreT, clipP_of_interior hI, tab_apply, mean0_eq_pi, sumFin_eq_sum,
+    if_true, wassWeights_eq hI]
+  refine Finset.sum_congr rfl fun a _ => ?_
+  rw [Finset.mul_sum]
+  refine Finset.sum_congr rfl fun b _ => ?_
+  rcases lt_trichotomy a.val b.val with h | h | h
+  · rw [if_pos h]; ring
+  · have hab : a = b := Fin.ext h
+    subst hab
+    rw [if_neg (lt_irrefl _), if_neg (lt_irrefl _), hdiag]; ring
+  · rw [if_neg (not_lt.mpr h.le), if_pos h, hsymm a b]; ring
+
+/-- Wasserstein one-vs-one, modulo POT, with the hypotheses on `emd2` stated globally
+    (symmetric value, zero on the diagonal). -/
+theorem wass_ovo_eq_spec {ε : ℝ} (emd2 : (Fin n → ℝ) → (Fin n → ℝ) → Model.Emd ℝ n)
+    (P : Fin n → Fin K → ℝ) (hI : Interior ε P)
+    (hsymm : ∀ a b, (emd2 a b).value = (emd2 b a).value) (hdiag : ∀ a, (emd2 a a).value = 0) :
+    wassScore emd2 ε true P
+      = ∑ a, ∑ b, Spec.pi P a * Spec.pi P b * (emd2 (Spec.cond P a) (Spec.cond P b)).value :=
+  wass_ovo_eq_spec_of_on_cond emd2 P hI (fun _ _ => hsymm _ _) (fun _ => hdiag _)
 
 /-- The translated registry (`_str_to_gemini`) maps every documented name to the documented
     (class, ovo) pair — in particular `mi ↦ KL one-vs-all` — and offers exactly the 13 names. -/
